@@ -30,3 +30,12 @@ for i, r in res.items():
 print("\n| file | reported / run |\n|---|---|")
 for f, (a, b) in sorted(byfile.items()):
     print(f"| `{f}` | {a} / {b} |")
+
+import os
+if os.path.exists("/verif/mutation/batch2/results.ndjson"):
+    r2 = [json.loads(l) for l in open("/verif/mutation/batch2/results.ndjson")]
+    t2 = json.load(open("/verif/mutation/batch2/triage.json"))["triage"]
+    c2 = collections.Counter(r["result"] for r in r2)
+    print(f"\nSecond batch (core files, four checks per file, the {len(r2)} mutants not in the first batch): " + ", ".join(f"{names.get(k, k)}: {v}" for k, v in c2.most_common()) + ".")
+    tc2 = collections.Counter(t2[r["id"]][0] if r["id"] in t2 else "not triaged" for r in r2 if r["result"] != "caught")
+    print("Triage of those let through: " + ", ".join(f"{k} {v}" for k, v in tc2.most_common()) + ".")
